@@ -71,19 +71,22 @@ func c10ProbePrefix(s c10Sess) kit.Bits {
 }
 
 func c10GenSess(t *rapid.T, rec *kit.Recorder) c10Sess {
-	for {
-		s := c10Sess{
-			fam:     rapid.SampledFrom([]int{c10FamV4, c10FamV4, c10FamV6, c10FamV6, c10FamV4MP}).Draw(t, "fam"),
-			kind:    rapid.IntRange(0, 3).Draw(t, "kind"),
-			addPath: rapid.IntRange(0, 2).Draw(t, "addpath") == 0,
-			asn4:    rapid.IntRange(0, 3).Draw(t, "asn4") != 0,
-		}
-		if !c10RemoveWorks(s) {
-			rec.Excluded(c10SigRewriteRemove)
-			continue
-		}
-		return s
+	s := c10Sess{
+		fam:     rapid.SampledFrom([]int{c10FamV4, c10FamV4, c10FamV6, c10FamV6, c10FamV4MP}).Draw(t, "fam"),
+		kind:    rapid.IntRange(0, 3).Draw(t, "kind"),
+		addPath: rapid.IntRange(0, 2).Draw(t, "addpath") == 0,
+		asn4:    rapid.IntRange(0, 3).Draw(t, "asn4") != 0,
 	}
+	if !c10RemoveWorks(s) {
+		// fall back to the session kind of the same class (iBGP / eBGP) that does not rewrite
+		rec.Excluded(c10SigRewriteRemove)
+		if s.kind == c10KindRRClient {
+			s.kind = c10KindIBGP
+		} else {
+			s.kind = c10KindRSClient
+		}
+	}
+	return s
 }
 
 var c10ASNs = []uint32{64500, 64501, 64502, 64503, 65010, 65011}
@@ -294,7 +297,20 @@ func (d *c10Driver) step(i int) {
 				return
 			}
 			// best-only client, prefix already has a path: AddPath without a preceding RemovePath
-			// (Adj-RIB-Out's own replacement: rt.ReplacePath + withdraw old + announce new)
+			// (Adj-RIB-Out's own replacement: rt.ReplacePath + withdraw old + announce new).
+			// The Loc-RIB itself always removes the old best path first; an AddPath over a stored
+			// path is only meaningful for a path the session exports, otherwise the Loc-RIB way
+			// (remove, then add) is used.
+			if !d.exportable(ai) {
+				old, _ := c10Pick(t, d.present[pi])
+				c.Logf("%d: replace p%d a%d -> a%d (new path not exportable)", i, pi, old, ai)
+				rig.rib.RemovePath(d.bpfx[pi], d.present[pi][old])
+				p := d.cs.attrs[ai].path(d.cs.sess)
+				rig.rib.AddPath(d.bpfx[pi], p)
+				d.present[pi] = map[int]*route.Path{ai: p}
+				d.drain()
+				return
+			}
 			was := rig.queued(d.bpfx[pi])
 			c.Logf("%d: direct-replace p%d -> a%d (queued=%v)", i, pi, ai, was)
 			c.NonTrivialIf(was)
@@ -375,6 +391,13 @@ func (d *c10Driver) step(i int) {
 		return
 	}
 	d.drain()
+}
+
+// exportable: iBGP-learned paths are not sent to an iBGP peer that is not a route
+// reflector client (AdjRIBOut.checkPropagateUpdateIBGP); everything else the
+// generator produces is exported (no well-known communities, never the peer's own path).
+func (d *c10Driver) exportable(ai int) bool {
+	return !(d.cs.sess.kind == c10KindIBGP && !d.cs.attrs[ai].ebgp)
 }
 
 func c10Pick(t *rapid.T, m map[int]*route.Path) (int, bool) {
